@@ -34,6 +34,44 @@ CONFIGS = {
     # a second compiler front end (clang 14 with libstdc++): builtins and template machinery that g++ 12 does not have
     "clang": ["CXX=clang++-14", "-O0", "-Wno-c++11-narrowing"],   # (g++ accepts the narrowing in braces that clang rejects)
 }
+KNOWN_GUARDS = {"NDEBUG", "_MSC_VER", "HAVE_BMI2", "__x86_64__", "__GNUC__", "__clang__", "__BMI2__", "__CUDACC__", "__CUDA_ARCH__",
+                "_OPENMP", "__cplusplus", "defined", "__has_builtin", "__has_include", "__has_cpp_attribute", "true", "false"}
+# feature macros the `isa` configuration already switches on
+ISA_GUARDS = {"__SSE2__", "__SSE3__", "__SSSE3__", "__SSE4_1__", "__SSE4_2__", "__AVX__", "__AVX2__", "__FMA__", "__BMI__", "__POPCNT__",
+              "__LZCNT__", "__F16C__", "__MOVBE__"}
+
+
+def guard_macros():
+    """Macros that guard code in the library's headers and that no build configuration of the checks defines: names in
+    #if / #ifdef / #ifndef / #elif conditions, minus the known ones, minus those the headers define themselves, minus
+    include guards. A change that hides code behind a target or tuning macro (`#ifdef __znver2__`) is compiled and run in
+    the additional configuration `bmi2macro` (= `bmi2` + -D<each of them>)."""
+    found, defined = set(), set()
+    for f in sorted(INC.rglob("*.hpp")):
+        try:
+            text = re.sub(r"\\\n", " ", f.read_text(errors="replace"))
+        except OSError:
+            continue
+        for ln in text.splitlines():
+            m = re.match(r"\s*#\s*(if|ifdef|ifndef|elif)\b(.*)", ln)
+            if m:
+                found |= set(re.findall(r"[A-Za-z_][A-Za-z_0-9]*", re.sub(r"//.*", "", m.group(2))))
+            m = re.match(r"\s*#\s*define\s+([A-Za-z_][A-Za-z_0-9]*)", ln)
+            if m:
+                defined.add(m.group(1))
+    out = sorted(x for x in found - KNOWN_GUARDS - ISA_GUARDS - defined if not x.isdigit() and not x.startswith("COVFIE_"))
+    return out
+
+
+def extra_cfgs():
+    """[] on a tree whose guards are all known; ["bmi2macro"] (and the configuration itself) otherwise"""
+    ms = guard_macros()
+    if not ms:
+        return []
+    CONFIGS["bmi2macro"] = ["-O1", "-g1", "-mbmi2"] + [f"-D{m}" for m in ms] + SAN
+    return ["bmi2macro"]
+
+
 BASE_FLAGS = ["-std=c++20", f"-D{GUARD}", "-w", f"-I{INC}", f"-I{VERIF / 'harness' / 'cpp'}"]
 SAN_ENV = {
     "ASAN_OPTIONS": "detect_leaks=1:abort_on_error=0:exitcode=97:allocator_may_return_null=1:max_allocation_size_mb=2048",
